@@ -250,6 +250,24 @@ CalImageInMhz(m1, m2) == CalibrateImage(m1 \div 4, (m2 + 3) \div 4)
 SetPacketType(t) == << <<OpSetPacketType, t>> >>            \* 0 = GFSK, 1 = LoRa
 SetDio2AsRfSwitchCtrl(enable) == << <<OpSetDio2AsRfSwitchCtrl, enable>> >>
 SetRegulatorMode(m) == << <<OpSetRegulatorMode, m>> >>      \* 0 = LDO, 1 = DC-DC + LDO
+\* TCXO supplied from DIO3 (DS 13.3.6): voltage code 0..7 = 1.6, 1.7, 1.8, 2.2, 2.4, 2.7, 3.0, 3.3 V, start-up delay in
+\* RTC steps of 15.625 us (24 bit).  After the TCXO is declared the calibration has to be run again (Calibrate, DS 13.1.12:
+\* bit 0 RC64k, 1 RC13M, 2 PLL, 3 ADC pulse, 4 ADC bulk N, 5 ADC bulk P, 6 image) and the XOSC_START_ERR flag raised at
+\* power-up without a running TCXO is cleared with ClearDeviceErrors (DS 13.6.2: opcode and two NOP bytes).
+OpSetDio3AsTcxoCtrl == 151         \* 0x97
+OpClearDeviceErrors == 7           \* 0x07
+SetDio3AsTcxoCtrl(voltage, delay) == << <<OpSetDio3AsTcxoCtrl, voltage>> \o BE24(delay) >>
+Calibrate(mask) == << <<OpCalibrate, mask>> >>
+CalibrateAll == 127
+ClearDeviceErrors == << <<OpClearDeviceErrors, 0, 0>> >>
+\* ClearDeviceErrors takes no parameters: every byte after the opcode is a NOP that only clocks a status byte out, and
+\* the chip's state does not depend on how many of them the host clocks.  A transaction that differs from the data
+\* sheet frame only by surplus trailing NOPs is therefore the same command for the chip.  (The repository's test
+\* canonicalisation - trimmed written bytes + total length - would tell the two apart; this relaxation is applied to
+\* this parameterless command only and is reported in the evidence.)
+IsClearDeviceErrors(t) == Len(t) >= 3 /\ t[1] = OpClearDeviceErrors /\ \A i \in 2..Len(t) : t[i] = 0
+\* board constant of lora-phy for the TCXO start-up delay: 10 ms = 640 RTC steps
+TcxoDelay10ms == 640
 \* retention list (register 0x029F: count, then up to four 16-bit addresses): add one register
 RetentionRead == ReadReg(RegRetentionList, 9)
 RetentionHas(list, addr) ==
